@@ -48,7 +48,7 @@ func init() {
 		Scenarios: []*Scenario{
 			{Name: "dial", Weight: 1, Bubble: true, Run: c12Run},
 			{Name: "sweep-dial", Bubble: true, Run: c12Sweep, SweepN: c12SweepN, QuickSweep: true, Exhaustive: true,
-				SweepNote: "MaxRetransmits 0..3 x answer the k-th CER for every k (or never) x 12 CEA kinds x 6 delays relative to the retransmit deadline (0, half, -1 ns, +1 ns, on it, after the whole budget), each followed by a duplicate success CEA, a failing CEA and an application answer: 1008 cases"},
+				SweepNote: "MaxRetransmits 0..3 x answer the k-th CER for every k (or never) x 14 CEA kinds x 6 delays relative to the retransmit deadline (0, half, -1 ns, +1 ns, on it, after the whole budget), each followed by a duplicate success CEA, a failing CEA and an application answer: 1176 cases"},
 		},
 		MustProbes: []string{"handshake-success", "handshake-timeout", "extra-cea-survived", "write-stall", "peer-eof", "peer-rst"},
 	})
